@@ -165,6 +165,27 @@ def cases_expr(facts, e, depth=0):
                 out.extend((conds + c2, v2) for c2, v2 in cc)
             else:
                 out.append((conds, ("const", {"ty": "bool", "bool": False})))
+        elif meth == "filter" and kind == "opt":
+            # Some(p) stays Some(p) exactly when the predicate holds for p
+            if tag != good:
+                out.append((conds, ("agg", {"agg": "Adt", "variant": "None"}, [])))
+            else:
+                cc = _closure_cases(facts, args[0], [payload], depth)
+                if cc is None:
+                    return None
+                for c2, v2 in cc:
+                    b2 = strip_refs(v2)
+                    neg2 = False
+                    while b2[0] == "unop" and b2[1] == "Not":
+                        neg2, b2 = not neg2, strip_refs(b2[2])
+                    if b2[0] == "const" and isinstance(const_value(b2[1]), bool):
+                        keep = const_value(b2[1]) != neg2
+                        out.append((conds + c2, wrap(payload) if keep else ("agg", {"agg": "Adt", "variant": "None"}, [])))
+                    else:
+                        key = ("truth", pathsum.canon(b2))
+                        SRC_EXPRS[key] = b2
+                        out.append((conds + c2 + ((key, not neg2),), wrap(payload)))
+                        out.append((conds + c2 + ((key, neg2),), ("agg", {"agg": "Adt", "variant": "None"}, [])))
         elif meth == "transpose":
             # Option<Result<T, E>> → Result<Option<T>, E>   /   Result<Option<T>, E> → Option<Result<T, E>>
             if kind == "opt":
